@@ -2,7 +2,7 @@ package stopdrv
 
 // Stop in the middle of a checkpointed filter-header sync (component level, the
 // REAL counterparts on both sides of the hand-over): getCheckpointedCFHeaders of
-// the real block manager over real header stores issues one batch of >= 8
+// the real block manager over real header stores issues one batch of 9-11
 // requests (two checkpoint intervals each) through the REAL work manager with
 // real workers; the peers answer all of them at about the same time, while the
 // writer goroutine is kept busy — every response it writes is followed by 2000
@@ -89,16 +89,19 @@ func (p *cfhPeer) SubscribeRecvMsg() (<-chan wire.Message, func()) {
 func (p *cfhPeer) Addr() string                  { return p.addr }
 func (p *cfhPeer) OnDisconnect() <-chan struct{} { return p.disc }
 
-func scenCFCheckptStop(t *tr.W, r *rand.Rand) {
+// consumer: "stalled" — the reader of the notifications takes `taken` of them and then nothing until the components
+// have been stopped; "slow" — it takes one notification per millisecond (a response of 2000 headers keeps the writer
+// busy for two seconds).
+func scenCFCheckptStop(t *tr.W, r *rand.Rand, consumer string) {
 	interval := int(wire.CFCheckptInterval)
 	per := neutrino.VerifMaxCFCheckptsPerQuery
-	nreq := 8 + r.Intn(3)
+	nreq := 9 + r.Intn(3)
 	n := nreq * per * interval
 	npeers := 3 + r.Intn(2)
-	consumer := []string{"stalled", "slow"}[r.Intn(2)]
-	// how many notifications the reader takes before it stops reading (stalled), i.e. where in the first responses
-	// the writer gets stuck
-	taken := r.Intn(3 * per * interval)
+	// how many notifications the reader takes before it stops reading (stalled): the writer gets stuck somewhere in the
+	// first response it writes (it may have taken a few more from the channel before — responses that arrived ahead of
+	// the one it needs next are set aside — so the batch is a few requests larger than what is needed on paper)
+	taken := r.Intn(per*interval - 200)
 	t.Case("stop cfcheckpt-sync reqs=%d peers=%d consumer=%s taken=%d", nreq, npeers, consumer, taken)
 
 	dir, err := os.MkdirTemp("", "stopcf")
@@ -204,7 +207,7 @@ func scenCFCheckptStop(t *tr.W, r *rand.Rand) {
 			case <-ch:
 				atomic.AddInt32(&nread, 1)
 				if consumer == "slow" {
-					time.Sleep(20 * time.Microsecond)
+					time.Sleep(time.Millisecond)
 				}
 			case <-release:
 				// drain what is left, briefly
